@@ -5,7 +5,18 @@ interleavings within a preemption bound.  SQLite's own lock manager arbitrates (
 one process lock each other by inode exactly as processes do); the shim only removes the *time*
 from the busy timeout: a BUSY answer becomes either an immediate error or a disabled thread
 according to SQLite's rule (see DESIGN.md C02), validated against the real library by calibrate().
+
+Per-process state.  parse() keeps one piece of state per process, the function attribute
+`parse.initialized_dbs`: absent ('A', no cache database has been fully initialised in this process yet),
+present without this database ('O', the process has used another cache folder), present with this
+database ('T').  It is part of every driver's initial state: each driver is started from each of them.
+As threads the callers share one parser module (one attribute, one letter); as processes every caller
+gets its own instance of the parser module (own parse function, own attribute -- as separate processes
+have) on its own path alias of the folder, and its own letter.
 """
+import _thread
+import importlib.util
+import itertools
 import os
 import shutil
 import sqlite3 as real_sqlite3
@@ -167,17 +178,17 @@ class ShimOs:
 
 
 def drivers(tier):
-    """name -> (texts per caller, initial database, kwargs, pre-initialise?)"""
+    """name -> (texts per caller, initial database, kwargs)"""
     d = {
-        "D1-absent-same-text": (["T1", "T1"], "absent", {}, False),
-        "D2-absent-different-texts": (["T1", "T2"], "absent", {}, False),
-        "D3-hit-update": (["T1", "T1"], "holds-T1", {"always_update_last_hit": True}, True),
-        "D4-wrong-layout": (["T1", "T2"], "wrong-layout", {}, False),
-        "D5-corrupt-file": (["T1", "T2"], "corrupt", {}, False),
-        "D7-one-initialised-one-fresh": (["T1", "T2"], "holds-T1", {}, "first"),
+        "D1-absent-same-text": (["T1", "T1"], "absent", {}),
+        "D2-absent-different-texts": (["T1", "T2"], "absent", {}),
+        "D3-hit-update": (["T1", "T1"], "holds-T1", {"always_update_last_hit": True}),
+        "D4-wrong-layout": (["T1", "T2"], "wrong-layout", {}),
+        "D5-corrupt-file": (["T1", "T2"], "corrupt", {}),
+        "D7-hit-and-miss": (["T1", "T2"], "holds-T1", {}),
     }
     if tier == "thorough":
-        d["D6-three-absent"] = (["T1", "T2", "T1"], "absent", {}, False)
+        d["D6-three-absent"] = (["T1", "T2", "T1"], "absent", {})
     return d
 
 
@@ -185,6 +196,125 @@ def bounds(tier, name):
     if tier == "quick":
         return 2
     return 2 if name.startswith("D6") else 3
+
+
+# ---- per-process state of parse() ----------------------------------------------------------------------
+
+PSTATES = "AOT"  # parse.initialized_dbs: Absent / present, Other database only / present with This database
+_NOATTR = object()
+_MODS = {}
+_CAL = {}
+
+
+def parser_instance(i):
+    """The parser module of 'process' i: the imported one for i = 0, else a private second execution of
+    the same source file (own parse function and attribute; ast / generated parser / pymoca are shared,
+    they hold no per-process cache state)."""
+    from pymoca import parser
+
+    if i == 0:
+        return parser
+    if i not in _MODS:
+        spec = importlib.util.spec_from_file_location("pymoca._c02_process_%d" % i, parser.__file__)
+        m = importlib.util.module_from_spec(spec)
+        spec.loader.exec_module(m)
+        _MODS[i] = m
+    return _MODS[i]
+
+
+def _get_state(m):
+    return getattr(m.parse, "initialized_dbs", _NOATTR)
+
+
+def _set_state(m, value):
+    if value is _NOATTR:
+        if hasattr(m.parse, "initialized_dbs"):
+            del m.parse.initialized_dbs
+    else:
+        m.parse.initialized_dbs = value
+
+
+def other_db(m):
+    """The key a real first parse() on another cache folder leaves in parse.initialized_dbs.  Measured on
+    the real code once per worker and module instance (and checked to be exactly {folder / DB}); the 'O'
+    and 'T' states are then written as that value instead of re-running a warm-up parse per schedule."""
+    k = id(m)
+    if k not in _CAL:
+        import pymoca
+
+        saved = _get_state(m)
+        d = Path(common.new_scratch("c02other"))
+        pymoca.__version__ = VERSION
+        _set_state(m, _NOATTR)
+        m.parse(TEXTS["T1"], model_cache_folder=d)
+        got = _get_state(m)
+        _set_state(m, saved)
+        if got is _NOATTR or type(got) is not set or got != {d / DB}:
+            raise RuntimeError("harness: a first parse() on %s left parse.initialized_dbs = %r, expected {%r}" % (d, got, d / DB))
+        _CAL[k] = d / DB
+    return _CAL[k]
+
+
+def _perm_ok(texts, initial, perm):
+    """Is renaming the callers by `perm` an isomorphism of the driver?  Texts the database holds must stay
+    with their callers; the others only matter up to which callers ask for the same text."""
+    moved = [texts[p] for p in perm]
+    if initial.startswith("holds-"):
+        return moved == list(texts)
+
+    def pattern(ts):
+        return [ts.index(t) for t in ts]
+
+    return pattern(moved) == pattern(list(texts))
+
+
+def variants(tier, name):
+    """[(mode, pstate string)]: threads -- one letter (shared attribute); processes -- one letter per caller,
+    one representative per orbit of the driver's caller symmetries (the preemption-bounded schedule space is
+    closed under renaming callers: the choice of who runs first or next after a caller ends is free).
+    Processes do not share the attribute, so the quick tier lets each caller meet one competitor per class
+    instead of all nine pairs: it leaves out the tuples in which two callers new to the database have the
+    same letter ('AA', 'OO': 'AO' has an 'A' and an 'O' caller each racing a new competitor; 'AT', 'OT',
+    'TT' pair every state with an initialised competitor).  The thorough tier runs every tuple."""
+    texts, initial, _ = drivers(tier)[name]
+    n = len(texts)
+    out = [("threads", s) for s in PSTATES]
+    perms = [p for p in itertools.permutations(range(n)) if _perm_ok(texts, initial, p)]
+    for tup in itertools.product(PSTATES, repeat=n):
+        if min(tuple(tup[p[i]] for i in range(n)) for p in perms) != tup:
+            continue
+        if tier == "quick" and (tup.count("A") > 1 or tup.count("O") > 1):
+            continue
+        out.append(("processes", "".join(tup)))
+    return out
+
+
+def legacy_pstate(name, mode, n):
+    """Replay files written before the process state was part of the case."""
+    if name.startswith("D3"):
+        return "T" * (1 if mode == "threads" else n)
+    if name.startswith("D7"):
+        return "T" if mode == "threads" else "T" + "O" * (n - 1)
+    return "O" * (1 if mode == "threads" else n)
+
+
+class _Baton:
+    """A raw lock used as the binary semaphore sched.Execution needs (strict hand-over: every release is
+    matched by exactly one acquire); same protocol as threading.Semaphore(0), a fraction of its cost."""
+
+    def __init__(self):
+        lk = _thread.allocate_lock()
+        lk.acquire()
+        self.acquire = lk.acquire
+        self.release = lk.release
+
+
+class Execution(sched.Execution):
+    def __init__(self, *a, **k):
+        super().__init__(*a, **k)
+        self.back = _Baton()
+        for t in self.ts:
+            t.go = _Baton()
 
 
 def fresh_dump(t):
@@ -226,48 +356,74 @@ def template(kind):
     return _TEMPLATES[kind]
 
 
-def run_schedule(name, mode, prefix, labels, tier):
-    """Execute one schedule of one driver; returns (Execution, violations)."""
+def run_schedule(name, mode, pst, prefix, labels, tier):
+    """Execute one schedule of one driver from one per-process state; returns (Execution, violations, outcome)."""
     import pymoca
-    from pymoca import parser
 
-    texts, initial, kw, preinit = drivers(tier)[name]
+    texts, initial, kw = drivers(tier)[name]
+    n = len(texts)
+    pst = pst or legacy_pstate(name, mode, n)
+    if len(pst) != (1 if mode == "threads" else n) or set(pst) - set(PSTATES):
+        raise RuntimeError("harness: process state %r does not fit %s/%s" % (pst, name, mode))
     pymoca.__version__ = VERSION
+    b = template(initial)  # (built by the real code: before the per-process state is set up)
+    mods = [parser_instance(i if mode == "processes" else 0) for i in range(n)]
+    umods = list({id(m): m for m in mods}.values())
+    others = {id(m): other_db(m) for m in umods}
+    saved = [(m, _get_state(m)) for m in umods]
+    fresh_dump(texts[0])
+    if not _CFG.get("frozen"):
+        # everything alive now (the ANTLR tables, the modules) lives as long as the worker: keep it out of
+        # the collections the scheduler runs after every caller, which otherwise cost more than the calls
+        import gc
+
+        gc.collect()
+        gc.freeze()
+        _CFG["frozen"] = True
     reg = Registry()
-    parser.sqlite3 = ShimSqlite(reg)
-    parser.os = ShimOs(reg)
+    shim_sql, shim_os = ShimSqlite(reg), ShimOs(reg)
     root = Path(common.new_scratch("c02"))
+    try:
+        return _run_schedule(name, mode, pst, prefix, labels, texts, initial, kw, b, mods, others, reg, shim_sql, shim_os, root)
+    finally:
+        for m, st in saved:
+            m.sqlite3 = real_sqlite3
+            m.os = os
+            _set_state(m, st)
+        shutil.rmtree(root, ignore_errors=True)
+
+
+def _run_schedule(name, mode, pst, prefix, labels, texts, initial, kw, b, mods, others, reg, shim_sql, shim_os, root):
     realdir = root / "cache"
     realdir.mkdir()
-    b = template(initial)
     if b is not None:
         with open(realdir / DB, "wb") as f:
             f.write(b)
+    n = len(texts)
     folders = []
-    for i in range(len(texts)):
+    for i in range(n):
         if mode == "processes":
             a = root / ("alias%d" % i)
             os.symlink(realdir, a)
             folders.append(a)
         else:
             folders.append(realdir)
-    if preinit:
-        # the caller(s) have used this database before in their process: sequential, unscheduled warm-up
-        warm = folders if preinit is True else folders[:1]
-        for f in dict.fromkeys(warm):
-            parser.parse(TEXTS["T1"], model_cache_folder=f)
-    results = {}
+    # the per-process state each caller starts from (threads: one module, one letter)
+    for i in range(n):
+        m, s = mods[i], pst[i if mode == "processes" else 0]
+        m.sqlite3, m.os = shim_sql, shim_os
+        _set_state(m, _NOATTR if s == "A" else {others[id(m)]} if s == "O" else {folders[i] / DB})
 
     def mk(i):
         def body():
-            tree = parser.parse(TEXTS[texts[i]], model_cache_folder=folders[i], **kw)
+            tree = mods[i].parse(TEXTS[texts[i]], model_cache_folder=folders[i], **kw)
             return None if tree is None else dump.dump(tree)
 
         return body
 
-    exe = sched.Execution([mk(i) for i in range(len(texts))], prefix, labels).run()
-    parser.sqlite3 = real_sqlite3
-    parser.os = os
+    exe = Execution([mk(i) for i in range(n)], prefix, labels).run()
+    for m in mods:
+        m.sqlite3, m.os = real_sqlite3, os
     viol = []
     if exe.error:
         raise RuntimeError("harness: " + exe.error)
@@ -284,8 +440,14 @@ def run_schedule(name, mode, prefix, labels, tier):
 
     gc.collect()
     p = realdir / DB
+    # A caller that is new to the database ('A'/'O') runs the one-time check, which replaces a missing or
+    # corrupt file.  When every caller had checked the database before it was damaged (all 'T' on an absent /
+    # corrupt file) each call only has to get by without it (C01: the next call re-checks), so a defect the
+    # file had from the start is not held against these calls.
+    repair_due = initial.startswith("holds-") or any(s != "T" for s in pst)
     if not p.exists():
-        viol.append((name.split("-")[0] + ":database-missing-at-end", "database file does not exist after all calls returned"))
+        if repair_due or initial != "absent":
+            viol.append((name.split("-")[0] + ":database-missing-at-end", "database file does not exist after all calls returned"))
     else:
         try:
             c = real_sqlite3.connect("file:%s?mode=ro" % p, uri=True, timeout=0.5)
@@ -293,39 +455,44 @@ def run_schedule(name, mode, prefix, labels, tier):
             cols = [r[1] for r in c.execute("PRAGMA table_info('models')").fetchall()]
             mcols = [r[1] for r in c.execute("PRAGMA table_info('metadata')").fetchall()]
             c.close()
-            if ok != ("ok",):
+            if ok != ("ok",) and (repair_due or initial != "corrupt"):
                 viol.append((name.split("-")[0] + ":database-corrupt-at-end", "integrity_check says %r" % (ok,)))
-            # a caller that failed may legitimately have left initialisation unfinished; only judge the
-            # layout when every call succeeded
-            if all(r[0] == "ok" for r in exe.results()):
+            # a caller that failed, or that lost a lock clash and went on without the cache, may legitimately
+            # have left initialisation unfinished (the next call re-checks): the layout is judged when every
+            # call succeeded and either the database was sound from the start (nobody may break it) or some
+            # caller that is new to it got through without a BUSY answer (it ran the whole initialisation)
+            backed_off = {e[1] for e in reg.events if e[0].startswith("busy")}
+            new_done = any(pst[i if mode == "processes" else 0] != "T" and i not in backed_off for i in range(n))
+            if (initial.startswith("holds-") or new_done) and all(r[0] == "ok" for r in exe.results()):
                 if cols != ["txt_hash", "pymoca_version", "data", "last_hit"] or mcols != ["key", "value"]:
                     viol.append((name.split("-")[0] + ":layout-wrong-at-end", "tables after the run: models%r metadata%r" % (cols, mcols)))
         except real_sqlite3.Error as e:
-            viol.append((name.split("-")[0] + ":database-corrupt-at-end", "cannot read the database after the run: %r" % e))
-    shutil.rmtree(root, ignore_errors=True)
+            if repair_due or initial != "corrupt":
+                viol.append((name.split("-")[0] + ":database-corrupt-at-end", "cannot read the database after the run: %r" % e))
     outcome = tuple(sorted(set(s for s, _ in viol))) + tuple(e[0] for e in reg.events if e[0].startswith("busy"))
     return exe, viol, outcome
 
 
 def _job(args):
-    name, mode, prefix, labels, bound, tier, root_only = args
+    name, mode, pst, prefix, labels, bound, tier, root_only = args
     stats = {"executions": 0, "points": 0, "outcomes": {}, "viol": [], "truncated": False, "alts": [], "sample": None}
 
     def run_one(pre, lab):
-        exe, viol, outcome = run_schedule(name, mode, pre, lab, tier)
+        exe, viol, outcome = run_schedule(name, mode, pst, pre, lab, tier)
         if viol:
             # a failure is only believed if the same schedule fails the same way again
-            exe2, viol2, _ = run_schedule(name, mode, exe.choices(), exe.labels(), tier)
+            exe2, viol2, _ = run_schedule(name, mode, pst, exe.choices(), exe.labels(), tier)
             if sorted(s for s, _ in viol2) != sorted(s for s, _ in viol):
                 raise RuntimeError("harness: schedule not reproducible: %r vs %r" % (viol, viol2))
         stats["executions"] += 1
         stats["points"] += len(exe.points)
         stats["outcomes"][outcome] = stats["outcomes"].get(outcome, 0) + 1
         if stats["sample"] is None:
-            stats["sample"] = {"driver": name, "mode": mode, "schedule": exe.labels()}
+            stats["sample"] = {"driver": name, "mode": mode, "pstate": pst, "schedule": exe.labels()}
         for sig, msg in viol:
             if len(stats["viol"]) < 200:
-                stats["viol"].append((sig, "%s/%s: %s" % (name, mode, msg), {"driver": name, "mode": mode, "choices": exe.choices(), "labels": exe.labels()}))
+                case = {"driver": name, "mode": mode, "pstate": pst, "choices": exe.choices(), "labels": exe.labels()}
+                stats["viol"].append((sig, "%s/%s[%s]: %s" % (name, mode, pst, msg), case))
         return exe
 
     if root_only:
@@ -410,18 +577,18 @@ def run(ctx):
     with common.Pool(init=_init, initargs=(tier, budget)) as pool:
         roots = []
         for name in drivers(tier):
-            for mode in ("threads", "processes"):
-                roots.append((name, mode, [], None, bounds(tier, name), tier, True))
+            for mode, pst in variants(tier, name):
+                roots.append((name, mode, pst, [], None, bounds(tier, name), tier, True))
         rres = pool.map(_job, roots, chunksize=1)
         jobs = []
         for r, st in zip(roots, rres):
             for pre, lab in st["alts"]:
-                jobs.append((r[0], r[1], pre, lab, r[4], tier, False))
+                jobs.append((r[0], r[1], r[2], pre, lab, r[5], tier, False))
         jres = pool.map(_job, jobs, chunksize=1)
     truncated = False
     for args, st in list(zip(roots, rres)) + list(zip(jobs, jres)):
-        key = "%s/%s" % (args[0], args[1])
-        d = per_driver.setdefault(key, {"executions": 0, "outcomes": {}, "preemption_bound": args[4]})
+        key = "%s/%s[%s]" % (args[0], args[1], args[2])
+        d = per_driver.setdefault(key, {"executions": 0, "outcomes": {}, "preemption_bound": args[5]})
         d["executions"] += st["executions"]
         total["executions"] += st["executions"]
         total["points"] += st["points"]
@@ -449,14 +616,20 @@ def run(ctx):
             "calibration_notes": notes or ["blocking rule agrees with the real library (3 scenarios, timeout 0.25 s)"],
             "exhaustive": not truncated,
             "rule": "every interleaving with <= bound preemptions of 2-3 real parse() calls at each sqlite connect/execute/"
-            "commit/close and os.remove seam, for the drivers listed in per_driver, sharing one database as threads "
-            "(one initialized_dbs set) and as processes (path aliases of the folder); 'states'/'transitions' count "
-            "scheduling points executed; distinct_nontrivial counts distinct (driver, mode) plus distinct outcome classes",
+            "commit/close and os.remove seam, for the drivers listed in per_driver (driver/mode[per-process state]), "
+            "sharing one database as threads (one parser module, one initialized_dbs attribute) and as processes (one "
+            "parser module instance and one path alias of the folder per caller); the state letters say where "
+            "parse.initialized_dbs starts: A absent, O present without this database, T present with it (threads: one "
+            "letter; processes: one per caller, one tuple per orbit of the driver's caller symmetries; quick leaves out "
+            "the tuples with two A or two O callers); 'states'/'transitions' count scheduling points executed; "
+            "distinct_nontrivial counts distinct (driver, mode, state) plus distinct outcome classes",
         }
     )
     ctx.assumptions += [
         "lock hold times are far below the 5 s busy timeout, so a timeout only fires at a true deadlock",
         "between two seams a caller touches shared memory at most once (parse.initialized_dbs), so seam-level interleavings cover the real ones",
+        "the per-process state of parse() is the function attribute initialized_dbs only (module instances share ast, the generated parser and pymoca.__version__); the O/T values are written as the set a real first parse() leaves, which is measured once per worker and module instance",
+        "texts the initial database does not hold are interchangeable (callers are renamed together with their texts when reducing the per-caller states by symmetry)",
         "the free-running 16-process clause of the quantifier is sampling and is not decided here",
     ]
     if notes:
@@ -465,7 +638,9 @@ def run(ctx):
 
 def replay(case):
     _init("thorough", None)
-    exe, viol, outcome = run_schedule(case["driver"], case["mode"], case["choices"], case["labels"], "thorough")
+    names = {k.split("-")[0]: k for k in drivers("thorough")}
+    case = dict(case, driver=names.get(case["driver"].split("-")[0], case["driver"]))
+    exe, viol, outcome = run_schedule(case["driver"], case["mode"], case.get("pstate"), case["choices"], case["labels"], "thorough")
     for lab in exe.labels():
         print("  ", lab)
     print([m for _, m in viol] or "all calls succeeded")
